@@ -297,6 +297,19 @@ def _rewrite_block(body: List[ast.stmt], in_function: bool, stats: Dict[str, int
             ast.copy_location(new, st)
             stats["annotation"] += 1
             st = new
+        if in_function and isinstance(st, ast.Expr) and isinstance(st.value, ast.YieldFrom) and isinstance(st.value.value, ast.GeneratorExp):
+            # `yield from (e for t in it if c)`  ->  for t in it: if c: yield e
+            g = st.value.value
+            inner: ast.stmt = ast.Expr(value=ast.Yield(value=g.elt))
+            for comp in reversed(g.generators):
+                for c in reversed(comp.ifs):
+                    inner = ast.If(test=c, body=[inner], orelse=[])
+                inner = ast.For(target=comp.target, iter=comp.iter, body=[inner], orelse=[], type_comment=None)
+            ast.copy_location(inner, st)
+            ast.fix_missing_locations(inner)
+            stats["yieldfrom"] += 1
+            body[i] = inner
+            continue
         if in_function and isinstance(st, (ast.Assign, ast.Return)) and isinstance(st.value, ast.IfExp) and (isinstance(st, ast.Return) or len(st.targets) == 1):
             # statement-level conditional expression -> if statement (the interpreter forks on the test like on any other)
             v = st.value
@@ -413,7 +426,7 @@ def _walk(node: ast.AST, in_function: bool, stats: Dict[str, int], fn) -> None:
 
 
 def normalise_tree(tree: ast.Module) -> Dict[str, int]:
-    stats = {"docstring": 0, "logging": 0, "else": 0, "tempreturn": 0, "annotation": 0, "ifexp": 0, "loop2comp": 0, "setupdate": 0, "flip": 0, "anyall": 0, "sink": 0, "guard": 0}
+    stats = {"docstring": 0, "logging": 0, "else": 0, "tempreturn": 0, "annotation": 0, "ifexp": 0, "loop2comp": 0, "setupdate": 0, "flip": 0, "anyall": 0, "sink": 0, "guard": 0, "yieldfrom": 0}
     _walk(tree, False, stats, None)
     for n in ast.walk(tree):
         if isinstance(n, (ast.FunctionDef, ast.AsyncFunctionDef)):
